@@ -180,12 +180,83 @@ Proof.
     apply (IH (z + 1) f H2). lia.
 Qed.
 
-Lemma doe_sweep : sweep (Z.to_nat 146097) 0 doe_ok = true.
+(* the month and day from the day of a March-based year: 366 cases, computed *)
+Definition month_day (doy : Z) : Z * Z :=
+  let mp := (5 * doy + 2) / 153 in
+  (if mp <? 10 then mp + 3 else mp - 9, doy - (153 * mp + 2) / 5 + 1).
+
+Definition doy_ok (doy : Z) : bool :=
+  let '(m, d) := month_day doy in
+  (1 <=? m) && (m <=? 12) && (1 <=? d) && (doy_of m d =? doy) &&
+  (d <=? (if m =? 2 then (if doy =? 365 then 29 else 28)
+          else if (m =? 4) || (m =? 6) || (m =? 9) || (m =? 11) then 30 else 31)).
+
+Lemma doy_sweep : sweep 366 0 doy_ok = true.
 Proof. vm_compute. reflexivity. Qed.
+
+Lemma doy_ok_all doy : 0 <= doy <= 365 -> doy_ok doy = true.
+Proof. intros H. apply (sweep_spec _ _ _ doy_sweep). cbn. lia. Qed.
+
+(* the year of the era and the day of the year: algebra *)
+Lemma year_of_era doe :
+  0 <= doe < 146097 ->
+  let c := Z.min (doe / 36524) 3 in
+  let docent := doe - c * 36524 in
+  let q := docent / 1461 in
+  let doq := docent - q * 1461 in
+  let yq := Z.min (doq / 365) 3 in
+  let doy := doq - yq * 365 in
+  let yoe := 100 * c + 4 * q + yq in
+  0 <= yoe < 400 /\ 0 <= doy <= 365 /\ doe = yoe * 365 + yoe / 4 - yoe / 100 + doy /\
+  (doy = 365 -> is_leap (yoe + 1) = true).
+Proof.
+  intros H. cbv zeta.
+  set (c := Z.min (doe / 36524) 3).
+  assert (Hc : 0 <= c <= 3 /\ c * 36524 <= doe /\ (c < 3 -> doe < (c + 1) * 36524)) by (subst c; zdm).
+  set (docent := doe - c * 36524).
+  assert (Hdc : 0 <= docent /\ (c < 3 -> docent < 36524) /\ docent <= 36524) by (subst docent; lia).
+  set (q := docent / 1461).
+  assert (Hq : 0 <= q <= 24 /\ q * 1461 <= docent < (q + 1) * 1461) by (subst q; zdm).
+  set (doq := docent - q * 1461).
+  assert (Hdq : 0 <= doq < 1461 /\ (q = 24 -> c < 3 -> doq < 1460)) by (subst doq; lia).
+  set (yq := Z.min (doq / 365) 3).
+  assert (Hy : 0 <= yq <= 3 /\ yq * 365 <= doq /\ (yq < 3 -> doq < (yq + 1) * 365)) by (subst yq; zdm).
+  set (doy := doq - yq * 365).
+  set (yoe := 100 * c + 4 * q + yq).
+  assert (H4 : yoe / 4 = 25 * c + q) by (subst yoe; zdm).
+  assert (H100 : yoe / 100 = c) by (subst yoe; zdm).
+  split; [subst yoe; lia|]. split; [subst doy; lia|]. split; [rewrite H4, H100; subst yoe doy doq docent; lia|].
+  intros Hd. assert (yq = 3 /\ doq = 1460) as [Hy3 Hd3] by (subst doy; lia).
+  apply is_leap_spec. subst yoe. rewrite Hy3.
+  assert (Hq24 : q = 24 -> c = 3) by lia.
+  split; [zdm|].
+  destruct (Z.eq_dec q 24) as [E|E].
+  - right. rewrite E, (Hq24 E). reflexivity.
+  - left. zdm.
+Qed.
 
 Lemma doe_ok_all doe : 0 <= doe < 146097 -> doe_ok doe = true.
 Proof.
-  intros H. apply (sweep_spec _ _ _ doe_sweep). rewrite Z2Nat.id by lia. lia.
+  intros H. pose proof (year_of_era doe H) as Y. cbv zeta in Y.
+  unfold doe_ok, civil_doe. cbv zeta.
+  set (yoe := 100 * Z.min (doe / 36524) 3 + 4 * ((doe - Z.min (doe / 36524) 3 * 36524) / 1461) +
+              Z.min ((doe - Z.min (doe / 36524) 3 * 36524 - (doe - Z.min (doe / 36524) 3 * 36524) / 1461 * 1461) / 365) 3) in *.
+  set (doy := doe - Z.min (doe / 36524) 3 * 36524 - (doe - Z.min (doe / 36524) 3 * 36524) / 1461 * 1461 -
+              Z.min ((doe - Z.min (doe / 36524) 3 * 36524 - (doe - Z.min (doe / 36524) 3 * 36524) / 1461 * 1461) / 365) 3 * 365) in *.
+  destruct Y as (Hy & Hd & He & Hl).
+  pose proof (doy_ok_all doy Hd) as Hok. unfold doy_ok, month_day in Hok.
+  set (m := if (5 * doy + 2) / 153 <? 10 then (5 * doy + 2) / 153 + 3 else (5 * doy + 2) / 153 - 9) in *.
+  set (d := doy - (153 * ((5 * doy + 2) / 153) + 2) / 5 + 1) in *.
+  repeat (apply andb_true_iff in Hok as [Hok ?]).
+  repeat match goal with H : (_ <=? _) = true |- _ => apply Z.leb_le in H
+                    | H : (_ =? _) = true |- _ => apply Z.eqb_eq in H end.
+  assert (Hdim : d <= days_in_month (yoe + (if m <=? 2 then 1 else 0)) m).
+  { unfold days_in_month. destruct (Z.eqb_spec m 2) as [E|E]; [|assumption].
+    rewrite E. cbn [Z.leb Z.compare Pos.compare Pos.compare_cont].
+    destruct (Z.eqb_spec doy 365) as [E2|E2]; [rewrite (Hl E2); assumption|].
+    destruct (is_leap (yoe + 1)); lia. }
+  repeat (apply andb_true_iff; split); try (apply Z.leb_le; lia); try (apply Z.ltb_lt; lia).
+  apply Z.eqb_eq. unfold doe_of. lia.
 Qed.
 
 Lemma is_leap_era y e : is_leap (y + e * 400) = is_leap y.
